@@ -24,9 +24,40 @@
 
 """
 
-from Crypto.Hash import SHA256
 from Crypto.PublicKey import RSA
 from Crypto.Signature import pkcs1_15
+
+
+class _Sha1Prehashed(object):  # pylint: disable=too-few-public-methods
+    """A stand-in for a ``Crypto.Hash.SHA1`` object whose digest is already known.
+
+    ADB authentication tokens are treated as SHA-1 digests: they are signed as-is, not hashed again.
+
+    Parameters
+    ----------
+    digest : bytes, bytearray
+        The pre-computed SHA-1 digest (i.e., the token)
+
+    """
+
+    #: The ASN.1 object ID of SHA-1
+    oid = "1.3.14.3.2.26"
+
+    digest_size = 20
+
+    def __init__(self, digest):
+        self._digest = bytes(digest)
+
+    def digest(self):
+        """Return the pre-computed digest.
+
+        Returns
+        -------
+        bytes
+            The digest
+
+        """
+        return self._digest
 
 
 class PycryptodomeAuthSigner(object):
@@ -69,8 +100,7 @@ class PycryptodomeAuthSigner(object):
             The signed ``data``
 
         """
-        h = SHA256.new(data)
-        return pkcs1_15.new(self.rsa_key).sign(h)
+        return pkcs1_15.new(self.rsa_key).sign(_Sha1Prehashed(data))
 
     def GetPublicKey(self):
         """Returns the public key in PEM format without headers or newlines.
